@@ -3398,10 +3398,14 @@ func (n *EVPNNLRI) Serialize(options ...*MarshallingOption) ([]byte, error) {
 	buf = append(buf, make([]byte, 2)...)
 	buf[offset] = n.RouteType
 	tbuf, err := n.RouteTypeData.Serialize()
-	buf[offset+1] = n.Length
 	if err != nil {
 		return nil, err
 	}
+	// the length octet frames what is emitted now: the Length cached by NewEVPNNLRI or
+	// by the decoder goes stale as soon as the route data is edited (a label added, the
+	// address changed from IPv4 to IPv6). n.Length itself is left alone: an NLRI is shared
+	// between the send loops of several peers and must not be written while serialising.
+	buf[offset+1] = uint8(len(tbuf))
 	return append(buf, tbuf...), nil
 }
 
